@@ -135,6 +135,12 @@ static inline struct vf_pair_%(G)s* vf_map_%(G)s_begin(struct vf_map_%(G)s* s) {
 static inline struct vf_pair_%(G)s* vf_map_%(G)s_end(struct vf_map_%(G)s* s) { return s->e + s->n; }
 static inline struct vf_pair_%(G)s* vf_map_%(G)s_find(struct vf_map_%(G)s* s, %(A)s k)
 {
+#ifdef VF_EXACT_MODELS /* exact for every map of at most VF_CAP entries: constant-bound loop, unwound completely */
+  size_t r = s->n;
+  __CPROVER_assert(s->n <= VF_CAP, "vf_map within model capacity");
+  for (size_t i = 0; i < VF_CAP; i++) { if (i < s->n && r == s->n && s->e[i].first == k) r = i; }
+  return s->e + r;
+#else
   size_t i = 0;
   while (i < s->n && !(s->e[i].first == k))
     __CPROVER_assigns(i)
@@ -142,6 +148,7 @@ static inline struct vf_pair_%(G)s* vf_map_%(G)s_find(struct vf_map_%(G)s* s, %(
     __CPROVER_decreases(s->n - i)
   { i++; }
   return s->e + i;
+#endif
 }
 static inline size_t vf_map_%(G)s_count(struct vf_map_%(G)s* s, %(A)s k) { return vf_map_%(G)s_find(s, k) != s->e + s->n; }
 static inline _Bool vf_map_%(G)s_contains(struct vf_map_%(G)s* s, %(A)s k) { return vf_map_%(G)s_find(s, k) != s->e + s->n; }
@@ -169,6 +176,11 @@ static inline size_t vf_map_%(G)s_erase(struct vf_map_%(G)s* s, %(A)s k)
   struct vf_pair_%(G)s* p = vf_map_%(G)s_find(s, k);
   if (p == s->e + s->n) return 0;
   size_t i = (size_t)(p - s->e);
+#ifdef VF_EXACT_MODELS
+  for (size_t j = 0; j + 1 < VF_CAP; j++) { if (j >= i && j + 1 < s->n) s->e[j] = s->e[j + 1]; }
+  s->n--;
+  return 1;
+#else
   for (size_t j = i; j + 1 < s->n; j++)
     __CPROVER_assigns(j, __CPROVER_object_whole(s->e))
     __CPROVER_loop_invariant(i <= j && j < s->n)
@@ -176,6 +188,7 @@ static inline size_t vf_map_%(G)s_erase(struct vf_map_%(G)s* s, %(A)s k)
   { s->e[j] = s->e[j + 1]; }
   s->n--;
   return 1;
+#endif
 }
 '''
 
